@@ -5,6 +5,7 @@ is correct for unsliced inputs and wrong exactly when the two inputs are sliced 
 import re
 from . import flow, dtm
 from .mirlib import Body, callee, op_local
+from .mirlib import op_place as op_place_
 
 BUF_GETTERS = {"inner", "buffer", "values", "validity"}
 OFF_GETTERS = {"offset", "bit_offset"}
@@ -31,9 +32,44 @@ def obj_root(b, l, depth=0):
 
 def getter_of(b, l, depth=0):
     ds = b.defs().get(l, [])
-    if len(ds) != 1 or depth > 6:
+    if depth > 6:
         return None
-    d = ds[0]
+    if len(ds) > 1:
+        # a value merged from several arms (`match x { Some(n) => Some(n.validity()), None => None }`): the arms that produce a getter must agree
+        got = set()
+        for d in ds:
+            if d[0] == "s" and d[3][0] == "agg" and d[3][1][0] == "adt" and d[3][1][3] == "None":
+                continue
+            if d[0] == "s":
+                g = _getter_of_def(b, d, depth)
+                got.add(g)
+            else:
+                got.add(None)
+        return got.pop() if len(got) == 1 else None
+    if len(ds) != 1:
+        return None
+    return _getter_of_def(b, ds[0], depth)
+
+
+def _getter_of_def(b, d, depth):
+    if d[0] == "s" and d[3][0] == "use":
+        # a field of a tuple built in (possibly several) arms: follow that component of every arm
+        p = op_place_(d[3][1])
+        if p is not None and len(p[1]) == 1 and isinstance(p[1][0], list) and p[1][0][0] == "f":
+            k = p[1][0][1]
+            tds = b.defs().get(p[0], [])
+            if tds and all(x[0] == "s" and x[3][0] == "agg" and x[3][1][0] == "tuple" and len(x[3][2]) > k for x in tds):
+                got = set()
+                for x in tds:
+                    ol = op_local(x[3][2][k])
+                    if ol is None:
+                        continue        # a constant component (None / 0)
+                    # `None` aggregates in an arm carry no getter
+                    ods = b.defs().get(ol, [])
+                    if len(ods) == 1 and ods[0][0] == "s" and ods[0][3][0] == "agg" and ods[0][3][1][0] == "adt" and ods[0][3][1][3] == "None":
+                        continue
+                    got.add(getter_of(b, ol, depth + 1))
+                return got.pop() if len(got) == 1 else None
     if d[0] == "call":
         t = d[3]
         if len(t["args"]) == 1:
